@@ -179,6 +179,9 @@ pub fn c05(a: &Args) {
                 if k % 4 == 0 {
                     ops.push(("lint".to_string(), 0, member.to_lowercase(), "plain".into()));
                     ops.push(("lint".to_string(), 0, member.to_uppercase(), "plain".into()));
+                    // Every Word Capitalised (behind a short prefix, so that the words sit at other offsets)
+                    let titled: String = member.split(' ').map(|w| { let mut c = w.chars(); match c.next() { Some(f) => f.to_uppercase().collect::<String>() + c.as_str(), None => String::new() } }).collect::<Vec<_>>().join(" ");
+                    ops.push(("lint".to_string(), 0, format!("Ok. {titled}"), "plain".into()));
                 }
             }
             sessions.push((ops, i % 4, "family"));
